@@ -70,7 +70,7 @@ theorem C02_float_bound_rejects_nan (min max : Option Nat) (b : Nat) (hn : F64.i
 /-- the integer a raw value denotes: any integer kind (if it fits int64), a float that is exactly an
     integer in int64 range, a decimal (or unit) string, a boolean as 0/1 -/
 inductive IntDenotes (u : Option Units) : V → Int → Prop
-  | int {k n} : n ≤ maxInt64 → IntDenotes u (.int k n) n
+  | int {k n} : inInt64 n = true → IntDenotes u (.int k n) n
   | float {k b n} : F64.toInt64Exact b = some n → IntDenotes u (.float k b) n
   | strPlain {s n} : u = none → parseInt10 s = some n → IntDenotes u (.str s) n
   | strUnits {s n un} : u = some un → un.parseInt s = some n → IntDenotes u (.str s) n
@@ -92,9 +92,9 @@ theorem intInputMapper_ok_iff (u : Option Units) (v : V) (n : Int) :
           simp at h; subst h; exact .strPlain rfl hp
         · simp [plain] at h
     · split at h
-      · simp [plain] at h
       · rename_i hle
-        simp at h; subst h; exact .int (by omega)
+        simp at h; subst h; exact .int hle
+      · simp [plain] at h
     · split at h
       · rename_i hp
         simp at h; subst h; exact .float hp
@@ -103,7 +103,7 @@ theorem intInputMapper_ok_iff (u : Option Units) (v : V) (n : Int) :
     · simp [plain] at h
   · intro h
     cases h with
-    | int hle => simp [intInputMapper]; omega
+    | int hle => simp [intInputMapper, hle]
     | float hp => simp [intInputMapper, hp]
     | strPlain hu hp => subst hu; simp [intInputMapper, hp]
     | strUnits hu hp => subst hu; simp [intInputMapper, hp]
